@@ -223,7 +223,7 @@ func c17SeedList(tier string, wide bool) []int {
 	c07Init()
 	var out []int
 	for k := 0; k < c07LibSeeds; k++ {
-		if tier == "thorough" || k%2 == 0 {
+		if tier == "thorough" || k%2 == 0 || k%4 == 3 { // 3 of 4: dense attribute storage (7 of 8: at the end of the file)
 			out = append(out, k)
 		}
 	}
@@ -393,8 +393,14 @@ func c17Trunc(c *ev.Ctx, cs c17Case) {
 			set[l] = true
 		}
 		for _, e := range ext.ext {
+			if e.End-e.Start <= 600 {
+				// a small structure (header, index node, heap header): a cut at every byte of it
+				for l := int(e.Start); l <= int(e.End) && l < len(b); l++ {
+					set[l] = true
+				}
+			}
 			for _, base := range []uint64{e.Start, e.End} {
-				for _, d := range []int{-8, -7, -2, -1, 0, 1, 2, 7, 8} {
+				for d := -16; d <= 16; d++ {
 					if l := int(base) + d; l >= 0 && l < len(b) {
 						set[l] = true
 					}
@@ -991,7 +997,7 @@ func c17WriteFaults(c *ev.Ctx, cs c17Case) {
 var C17 = &ev.Property{
 	ID:    "C17",
 	Level: "fault_enumeration",
-	Rule: "seed files: the 24 fixed library-written files of C07 (quick: 12) and, of the corpus files up to 64 KiB (space T: all of them in the thorough tier, every 10th plus a cover of 8 in the quick tier), every 4th (quick: 40th) plus a greedy cover that keeps adding files while they contain a structure kind, or a kind of answer of the reader on the intact file (layout x datatype class of readable datasets, string/compound reads, datatype class of readable attribute values, many attributes), that fewer than 8 (quick: 2) chosen files contain. T: every truncation length of files up to 16 KiB, for larger files every structure boundary +-{0,1,2,7,8} and every 64th byte; R: every position k of a failing pread64 (EIO) in the I/O sequence of a complete dump through the public reader (strace injection into a worker that runs on one locked OS thread; the strace log is the ground truth of which read failed; quick: k <= 160 on a third of the seeds); C: every position k of a failing and of a short ReadAt under ReadSuperblock, ReadObjectHeader (+ attributes), ReadDatasetFloat64/Strings/Compound, LoadLocalHeap, ParseSymbolTableNode, ReadGroupBTreeEntries, ReadGlobalHeapCollection at the addresses of up to six structures of each kind per file; W: every position k of a failing pwrite64 (ENOSPC) and of a failing pread64 (EIO) in 6 (thorough: 24) writer histories, half of which continue with a reopen session in which two handles on one dataset take turns modifying it. Oracle: each call result under the fault is an error or equals the result on the intact file; group member lists and attribute lists do not shrink; no panic, no dead worker; a write fault that no call reports must leave a file equal to the fault-free one, as seen through the library's reader and through the independent decoder (which also follows variable-length data; a third of the writer histories fill several global heap collections). " +
+	Rule: "seed files: the 24 fixed library-written files of C07 (quick: 18, dense attribute storage among them) and, of the corpus files up to 64 KiB (space T: all of them in the thorough tier, every 10th plus a cover of 8 in the quick tier), every 4th (quick: 40th) plus a greedy cover that keeps adding files while they contain a structure kind, or a kind of answer of the reader on the intact file (layout x datatype class of readable datasets, string/compound reads, datatype class of readable attribute values, many attributes), that fewer than 8 (quick: 2) chosen files contain. T: every truncation length of files up to 16 KiB, for larger files every byte of every structure of up to 600 bytes, every structure boundary +-16 and every 64th byte; R: every position k of a failing pread64 (EIO) in the I/O sequence of a complete dump through the public reader (strace injection into a worker that runs on one locked OS thread; the strace log is the ground truth of which read failed; quick: k <= 160 on a third of the seeds); C: every position k of a failing and of a short ReadAt under ReadSuperblock, ReadObjectHeader (+ attributes), ReadDatasetFloat64/Strings/Compound, LoadLocalHeap, ParseSymbolTableNode, ReadGroupBTreeEntries, ReadGlobalHeapCollection at the addresses of up to six structures of each kind per file; W: every position k of a failing pwrite64 (ENOSPC) and of a failing pread64 (EIO) in 6 (thorough: 24) writer histories, half of which continue with a reopen session in which two handles on one dataset take turns modifying it. Oracle: each call result under the fault is an error or equals the result on the intact file; group member lists and attribute lists do not shrink; no panic, no dead worker; a write fault that no call reports must leave a file equal to the fault-free one, as seen through the library's reader and through the independent decoder (which also follows variable-length data; a third of the writer histories fill several global heap collections). " +
 		"non-trivial: at least one fault was delivered; distinct = (space, seed, block).",
 	Assumptions: []string{"strace's when=k counts per thread: the workers pin the goroutine that does the I/O to one OS thread (GOMAXPROCS=1, LockOSThread) and the log is checked for a delivered fault"},
 	Cases:       func(tier string) int { return len(c17Plan(tier)) },
